@@ -80,6 +80,8 @@ def d2(cx: Cx, ob: Ob) -> None:
             for c in subterms(t):
                 if op(c) != "call":
                     continue
+                if ev.kind == "expr" and ev.a == c:
+                    continue  # constructed and thrown away (a validity check): nothing keeps the records
                 tg = o.tag(c)
                 if tg is not None and tg[0] == "CF" and tg[1] is not None and tg[1][0] in ("B", "S"):
                     key = ("ctor", ev.line)
